@@ -824,6 +824,20 @@ ITEMS.append(('o_vq_mask_proj', lambda: G.emit_call_sequence('o_vq_mask_proj', V
 ITEMS.append(('o_rvq_mask_proj', lambda: G.emit_call_sequence('o_rvq_mask_proj', RVQ, 'ResidualVQ.forward', ('einx.where', 'torch.where', 'x.masked_fill', 'self.project_in'),
                                                                'ResidualVQ.forward: zeroing of padded rows vs the input projection')))
 
+# k-means initialisation: everything that can raise (masking, kmeans, sampling) comes BEFORE the first write, and the `initted` flag is written last
+for cls, tag in (('EuclideanCodebook', 'euclid'), ('CosineSimCodebook', 'cosine')):
+    ITEMS.append((f'o_{tag}_init', (lambda cls=cls, tag=tag: G.emit_call_sequence(
+        f'o_{tag}_init', VQ, f'{cls}.init_embed_', ('kmeans', 'rearrange', 'self.embed.data.copy_', 'self.embed_avg.data.copy_', 'self.cluster_size.data.copy_', 'self.initted.data.copy_',
+                                                    'self.initted.copy_', 'self.initted.fill_', 'self.initted.data.fill_'),
+        f'{cls}.init_embed_: k-means before any write, the flag last'))))
+
+# which random generator draws the quantize-dropout depth: a private random.Random(seed) instance, never the process-global functions (Model/RngSched.v)
+for cls, tag, fn in (('ResidualVQ', 'rvq', RVQ), ('ResidualFSQ', 'rfsq', RFSQ), ('ResidualLFQ', 'rlfq', RLFQ), ('ResidualSimVQ', 'rsvq', RSVQ)):
+    ITEMS.append((f'o_{tag}_rng', (lambda cls=cls, tag=tag, fn=fn: G.emit_call_sequence(
+        f'o_{tag}_rng', fn, f'{cls}.forward', ('random.Random', 'rand.randrange', 'random.seed', 'random.randrange', 'random.randint', 'random.random', 'random.choice',
+                                               'random.getrandbits', 'random.uniform'),
+        f'{cls}.forward: generator of the dropout depth'))))
+
 
 # einops patterns (G3)
 for name, fname, qual in (('pat_vq_forward', VQ, 'VectorQuantize.forward'), ('pat_vq_split', VQ, 'VectorQuantize.maybe_split_heads_from_input'),
